@@ -115,4 +115,14 @@ CLAIMED["C20"] = dict(
          "cuts the TTL and lower-cases the owner; model tied to /repo by the translator plus vm_compute correspondence; the "
          "wire-octet characterisation of RDATA equality by direct oracle (partial)",
     technique="machine-checked proof in Coq over translator-regenerated comparison tables + model/implementation correspondence by vm_compute")
+CLAIMED["C08"] = dict(
+    text="Coq theorems for ALL records and messages over the pack sequences and len() terms regenerated from zmsg.go/ztypes.go on "
+         "every run: the two tables are aligned for every type (vm_compute over the whole tables), hence Len(rr) >= octets packRR "
+         "writes; Msg.Len() >= len(Pack()) uncompressed and, through a joint invariant between compressionLenSearch's suffix set "
+         "and the packer's compression map, compressed; equality for escape-free records/messages of the 16 common types; "
+         "PackBuffer's result does not depend on the buffer length, never fails for lack of room (classes buf/overflow excluded, "
+         "no panic), and uses the caller's buffer exactly when it is larger than the uncompressed length; option len() >= pack() "
+         "is a hypothesis the harness checks for every EDNS0/SVCB value; model tied to /repo by the translator plus vm_compute "
+         "correspondence of Len and PackBuffer results",
+    technique="machine-checked proof in Coq (alignment of translator-regenerated tables + compression-map invariant) + model/implementation correspondence by vm_compute")
 NOT_YET = {}
